@@ -14,7 +14,8 @@ type modelCheck struct {
 	clauses []string
 	nt      func(l map[string]bool) bool
 	assume  []string
-	valid   bool // ValidSigs
+	valid   bool   // ValidSigs
+	risky   string // RunOpts.Risky: how Invokes whose resolution traverses a constructor cycle are executed
 	// tweak may adjust the knobs per case (drawn from the rapid stream)
 	tweak func(t *rapid.T, k *Knobs)
 }
@@ -32,7 +33,7 @@ func (mc modelCheck) register() {
 			return GenCase(t, k)
 		},
 		Check: func(c *Case, st *Stats) *Failure {
-			tr := Run(c, RunOpts{})
+			tr := Run(c, RunOpts{Risky: mc.risky})
 			v := Validate(c, tr, VOpts{ValidSigs: mc.valid})
 			l := CaseLabels(c, v)
 			ModelLabels(c, v, l)
@@ -62,6 +63,9 @@ func init() {
 			k.PGroupRes, k.PGroupParam = 30, 30
 			k.NoFaults, k.PFault, k.PErr = false, 12, 35
 			k.PRecover = 60
+			// callbacks are user code as well: one that panics must not make
+			// a constructor that completed run again
+			k.PCallback, k.PCBPanic = 15, 40
 			k.Types = []string{"T0", "T1", "T2", "T3", "S0"}
 			return k
 		},
